@@ -59,6 +59,10 @@ class PackageLoader(BaseLoader):
         if template_path.anchor or os.path.pardir in template_path.parts:
             raise TemplateNotFoundError(template_name)
 
+        # "" and "." name package_path itself, not a template in it.
+        if not template_path.name:
+            raise TemplateNotFoundError(template_name)
+
         # Add suffix self.ext if template name does not have a suffix.
         if not template_path.suffix:
             template_path = template_path.with_suffix(self.ext)
